@@ -310,7 +310,9 @@ def arm_fingerprint(fn, region):
         if c.bb in region and c.callee:
             calls.add(sig._short(c.callee))
     for m, bs in message_sites(fn).items():
-        if any(b in region for b in bs):
+        # the default message of an assertion is the stringified condition: source text (a `debug_assert!` that an extracted
+        # helper states about its arguments), not one of the decoder's error strings
+        if any(b in region for b in bs) and not (m.startswith("assertion failed:") or m.startswith("assertion `")):
             msgs.add(m)
     return {"fields": fields, "consts": consts, "calls": calls, "msgs": msgs}
 
